@@ -120,6 +120,8 @@ pub struct Args {
     pub out: Option<PathBuf>,
     pub replay: Option<PathBuf>,
     pub cases: Option<u64>,
+    /// run `scale` x the tier's default number of cases (used by the repeats in other build profiles)
+    pub scale: Option<f64>,
     pub jobs: u64,
     pub time_limit: f64,
     pub trace_file: Option<PathBuf>,
@@ -142,6 +144,7 @@ fn parse_args() -> Args {
         out: None,
         replay: None,
         cases: None,
+        scale: None,
         jobs: std::env::var("DVH_JOBS").ok().and_then(|s| s.parse().ok()).unwrap_or(16),
         time_limit: 0.0,
         trace_file: None,
@@ -179,6 +182,7 @@ fn parse_args() -> Args {
             "--out" => a.out = Some(PathBuf::from(next(&mut i))),
             "--replay" => a.replay = Some(PathBuf::from(next(&mut i))),
             "--cases" => a.cases = Some(next(&mut i).parse().unwrap()),
+            "--scale" => a.scale = Some(next(&mut i).parse().unwrap()),
             "--jobs" => a.jobs = next(&mut i).parse().unwrap(),
             "--time-limit" => {
                 a.time_limit = next(&mut i).parse().unwrap();
@@ -370,10 +374,15 @@ pub fn load_findings(prop: &str) -> (HashSet<String>, Vec<Value>) {
 }
 
 fn total_cases(spec: &Spec, a: &Args) -> u64 {
-    a.cases.unwrap_or(match a.tier {
+    let dflt = match a.tier {
         Tier::Quick => spec.quick_cases,
         Tier::Thorough => spec.thorough_cases,
-    })
+    };
+    match (a.cases, a.scale) {
+        (Some(c), _) => c,
+        (None, Some(f)) => ((dflt as f64 * f) as u64).max(1),
+        (None, None) => dflt,
+    }
 }
 
 fn new_mon(spec: &Spec, a: &Args) -> Mon {
@@ -691,7 +700,7 @@ fn supervisor(spec: &Spec, a: &Args) -> ! {
 
     // required coverage
     let mut missing: Vec<String> = vec![];
-    if a.only_idx.is_none() && a.cases.is_none() {
+    if a.only_idx.is_none() && a.cases.is_none() && a.scale.is_none() {
         for (name, thorough_only) in spec.required {
             if *thorough_only && a.tier != Tier::Thorough {
                 continue;
